@@ -35,6 +35,9 @@ import (
 
 var bigIntPtrType = reflect.TypeOf((*big.Int)(nil))
 
+// c17Order: order of the group the component tests run in (for order-preserving shifts of sub-challenges).
+var c17Order *big.Int
+
 type c17Leaf struct {
 	path string
 	get  func() *big.Int
@@ -151,6 +154,14 @@ func c17Component(r *vkit.Report, name string, proofPtr any, honest []*big.Int, 
 			val   *big.Int
 		}
 		muts := []mut{{"+1", new(big.Int).Add(orig, big.NewInt(1))}, {"=0", big.NewInt(0)}, {"=nil", nil}, {"-1", new(big.Int).Sub(orig, big.NewInt(1))}}
+		if strings.Contains(lf.path, "hallenge") && c17Order != nil {
+			// sub-challenges of OR-compositions act modulo the group order in the reconstruction but are tied
+			// to the Fiat-Shamir challenge as integers: shifts that keep the residue (and, for the second,
+			// also the low 256 bits) must break that tie
+			muts = append(muts, mut{"+order", new(big.Int).Add(orig, c17Order)},
+				mut{"+order<<256", new(big.Int).Add(orig, new(big.Int).Lsh(c17Order, 256))},
+				mut{"+2^256", new(big.Int).Add(orig, new(big.Int).Lsh(big.NewInt(1), 256))})
+		}
 		if li+1 < len(leaves) {
 			if nx := leaves[li+1].get(); nx != nil && nx.Cmp(orig) != 0 {
 				muts = append(muts, mut{"=next-leaf", new(big.Int).Set(nx)})
@@ -318,7 +329,7 @@ func c17Degenerate(r *vkit.Report, name string, P *big.Int, ptrs []any, verify f
 func TestVerifC17Components(t *testing.T) {
 	r := vkit.Start(t, "C17", "zk-components", 240*time.Second, 1200*time.Second)
 	defer r.Finish()
-	r.Rule = "components {pedersen, addition, multiplication, exp (with its exp-step OR-compositions, both bit values), prime, is-square} on toy groups: honest instance, then EVERY exported big-integer leaf of the proof x {+1, -1, =0, =nil, =next leaf}; non-trivial = distinct (component, leaf, alteration) that changes the value; oracle: honest => structure ok and commitments-from-proof == commitments-from-secrets; altered => structure check fails or the reconstructed list differs"
+	r.Rule = "components {pedersen, addition, multiplication, exp (with its exp-step OR-compositions, both bit values), prime, is-square} on toy groups: honest instance, then EVERY exported big-integer leaf of the proof x {+1, -1, =0, =nil, =next leaf; for sub-challenges of OR-compositions also +order, +order*2^256, +2^256}; non-trivial = distinct (component, leaf, alteration) that changes the value; oracle: honest => structure ok and commitments-from-proof == commitments-from-secrets; altered => structure check fails or the reconstructed list differs"
 	ch := big.NewInt(12345)
 	common.VerifSeedCPRNG([32]byte{17, 17, 17})
 	// a 40-bit safe-prime group: with the 23-element group of the package's own tests a changed
@@ -328,6 +339,7 @@ func TestVerifC17Components(t *testing.T) {
 		r.HarnessError("toy group")
 		return
 	}
+	c17Order = g47.Order
 	// pedersen
 	{
 		s := newPedersenStructure("x")
